@@ -13,7 +13,10 @@ pub const ID: &str = "C14";
 
 #[derive(Clone, Debug, Serialize, Deserialize)]
 pub struct Case {
+    /// a range text, or (when `expr` is present) ignored in favour of the evaluated expression
     pub range: String,
+    #[serde(default)]
+    pub expr: Option<Expr>,
     pub list: Vec<MVersion>,
     /// rotation / reversal seeds for the permutations
     pub perms: Vec<(usize, bool)>,
@@ -62,14 +65,29 @@ fn check_list(r: &Range, rtext: &str, list: &[MVersion], st: &mut Stats) -> Resu
 }
 
 pub fn check_case(c: &Case, st: &mut Stats) -> Result<(), Failure> {
-    let r = match guard(|| Range::parse(&c.range)) {
-        Ok(Ok(r)) => r,
-        Ok(Err(_)) => {
-            st.discarded += 1;
-            return Ok(());
-        }
-        Err(p) => return Err(Failure::new("parse-panics", format!("Range::parse({:?}) panicked: {}", c.range, p))),
+    let (r, rtext) = match &c.expr {
+        Some(e) => match eval_crate(e) {
+            Ok(Some(r)) => {
+                st.class("range-from-set-operations");
+                let t = format!("{} = {}", e.show(), r);
+                (r, t)
+            }
+            Ok(None) | Err(EvalErr::Leaf(_)) => {
+                st.discarded += 1;
+                return Ok(());
+            }
+            Err(EvalErr::Panic(p)) => return Err(Failure::new("operation-panics", p)),
+        },
+        None => match guard(|| Range::parse(&c.range)) {
+            Ok(Ok(r)) => (r, c.range.clone()),
+            Ok(Err(_)) => {
+                st.discarded += 1;
+                return Ok(());
+            }
+            Err(p) => return Err(Failure::new("parse-panics", format!("Range::parse({:?}) panicked: {}", c.range, p))),
+        },
     };
+    let c = &Case { range: rtext, expr: None, list: c.list.clone(), perms: c.perms.clone() };
     let (mx, mn) = check_list(&r, &c.range, &c.list, st)?;
     let cl: Vec<Version> = c.list.iter().map(|v| v.to_crate()).collect();
     let nsat = cl.iter().filter(|v| r.satisfies(v)).count();
@@ -128,8 +146,11 @@ pub fn strategy() -> BoxedStrategy<Case> {
             let near = (select(pool.clone()), select(tg), 0u64..3, prop_oneof![3 => Just(vec![]), 1 => Just(vec![MId::Str("b".to_string())]), 1 => Just(vec![MId::Num(1)])])
                 .prop_map(|(b, t, d, build)| MVersion::new(b.major, b.minor, b.patch + d).with_pre(t).with_build(build));
             let exact = (select(pool.clone()), prop_oneof![3 => Just(vec![]), 1 => Just(vec![MId::Str("x".to_string())])]).prop_map(|(b, build)| b.with_build(build));
+            let huge = (select(vec![u64::MAX, u64::MAX - 1, 1u64 << 53, (1u64 << 53) + 1, max_int() + 1]), 0u64..3, 0u64..3)
+                .prop_map(|(a, b, c)| MVersion::new(a, b, c));
+            let near = prop_oneof![30 => near, 1 => huge].boxed();
             (
-                leaf_text(pool, 3),
+                prop_oneof![3 => leaf_text(pool.clone(), 3).prop_map(|t| (t, None)), 1 => expr_with_any(pool, 2, 3).prop_map(|e| (String::new(), Some(e)))],
                 prop_oneof![
                     12 => proptest::collection::vec(prop_oneof![2 => near.clone(), 2 => exact.clone()], 0..=12),
                     1 => proptest::collection::vec(prop_oneof![2 => near, 2 => exact], 60..=140),
@@ -137,7 +158,7 @@ pub fn strategy() -> BoxedStrategy<Case> {
                 proptest::collection::vec((0usize..12, any::<bool>()), 3),
             )
         })
-        .prop_map(|(range, list, perms)| Case { range, list, perms })
+        .prop_map(|((range, expr), list, perms)| Case { range, expr, list, perms })
         .boxed()
 }
 
